@@ -23,6 +23,8 @@ def _child(state, cmd):
     for t in cfg["threads"]:
         for call in t["calls"]:
             H._sv_class(state, call["model"])
+    for m in (cfg.get("shared") or {}).values():
+        H._sv_class(state, m)
     if decisions is not None:
         chooser = baton.ReplayChooser(decisions)
     else:
@@ -41,11 +43,28 @@ def _child(state, cmd):
         return orig_block(what)
     sched.block = block
 
+    # instances handed back and forth between threads: every operation on one of
+    # them (configuration + evaluation) happens while holding that instance's
+    # token, so its requests are well defined by the order the scheduler chose
+    shared = dict((x, H._sv_new(state, m)) for x, m in sorted((cfg.get("shared") or {}).items()))
+    tokens = dict((x, baton.SimLock(sched, "inst:" + x)) for x in shared)
+    shared_log = []
+
     def body(spec):
         def run(actor):
             out = []
             inst = None
             for call in spec["calls"]:
+                if call.get("shared"):
+                    x = call["shared"]
+                    with tokens[x]:
+                        for c in call["config"]:
+                            H._sv_apply(shared[x], tuple(c))
+                        res = H._sv_eval(state, shared[x], call["q"], call["fn"])
+                        shared_log.append([x, len(shared_log), spec["name"], [list(c) for c in call["config"]],
+                                           call["q"], call["fn"], res])
+                    out.append(None)
+                    continue
                 how = call.get("how", "new")
                 if how == "new" or inst is None:
                     inst = H._sv_new(state, call["model"])
@@ -75,7 +94,7 @@ def _child(state, cmd):
     return {"results": results, "decisions": list(sched.decisions), "digest": sched.digest({"cfg": cfg}),
             "shape": sched.shape(), "steps": sched.step, "preempted_mid": sched.preempted_mid,
             "lock_contended": lock.contended, "lock_acquisitions": lock.acquisitions,
-            "lazy_contended": lazy[0], "stop_reason": stop, "harness_error": err,
+            "lazy_contended": lazy[0], "stop_reason": stop, "harness_error": err, "shared_log": shared_log,
             "tail": [list(e) for e in sched.events[-40:]]}
 
 
@@ -111,6 +130,8 @@ def run_threads(cfg, decisions=None, keep_events=False):
                     continue
                 acc, cur_model = [], None
                 for call, got in zip(t["calls"], r["result"] or []):
+                    if call.get("shared"):
+                        continue
                     # the request an evaluation stands for = everything applied to that instance so far
                     if call.get("how", "new") == "new" or cur_model is None:
                         acc, cur_model = [], call["model"]
@@ -128,6 +149,20 @@ def run_threads(cfg, decisions=None, keep_events=False):
                     if got["args_changed"]:
                         violations.append({"inv": "H2", "kind": "threads", "model": call["model"],
                                            "detail": got["args_changed"]})
+            accs = {}
+            for x, seq, who, config, qk, fn, got in (out.get("shared_log") or []):
+                accs[x] = accs.get(x, []) + config
+                probes["shared_instance_evaluation"] = probes.get("shared_instance_evaluation", 0) + 1
+                req = {"kind": "sv", "model": cfg["shared"][x], "config": list(accs[x]), "q": qk, "fn": fn}
+                fresh, unstable = H.fresh_answer(req, None, probes)
+                sr, fr = got["result"], fresh["result"]
+                same = (sr == fr) if sr[0] == "ok" and fr[0] == "ok" else (sr[0] == fr[0] and sr[1] == fr[1])
+                if not same:
+                    violations.append({"inv": "H1", "kind": "threads", "model": cfg["shared"][x],
+                                       "detail": "instance %s handed between threads: evaluation #%d by %s of request %r "
+                                                 "returned %s but %s in a fresh process"
+                                                 % (x, seq, who, req, H._short(got), H._short(fresh))})
+                    break
     except HarnessError as exc:
         harness_error = str(exc)
     finally:
@@ -180,6 +215,15 @@ def gen_config(st, tier):
             call.setdefault("_m", call["model"])
             calls.append(call)
         threads.append({"name": "T%d" % i, "calls": calls})
+    shared = {}
+    if c.random() < 0.35:
+        sm = w.choice(["sphere", "cylinder", "pyplug", "sphere@hardsphere"])
+        shared = {"X1": sm}
+        for t in threads:
+            for _ in range(c.choice([1, 2, 3])):
+                call = _call_for(w, sm)
+                call["shared"] = "X1"
+                t["calls"].insert(w.randrange(len(t["calls"]) + 1), call)
     pk = c.random()
     if pk < 0.3:
         policy = {"kind": "uniform"}
@@ -187,7 +231,7 @@ def gen_config(st, tier):
         policy = {"kind": "sticky", "p": c.choice([0.5, 0.9, 0.98])}
     else:
         policy = {"kind": "pct", "d": c.choice([1, 2, 3]), "horizon": 1500 * n}
-    return {"kind": "threads", "threads": threads, "policy": policy,
+    return {"kind": "threads", "threads": threads, "policy": policy, "shared": shared,
             "sched_seed": st["schedule"].getrandbits(48)}
 
 
@@ -202,6 +246,14 @@ def sweep_configs(tier):
                                     {"name": "T2", "calls": [dict(call, q="q5")]}],
                         "policy": {"kind": "uniform"} if seed % 2 else {"kind": "pct", "d": 2, "horizon": 3000},
                         "sched_seed": seed})
+    for seed in range(4 if tier == "quick" else 12):
+        ev = {"model": "sphere", "shared": "X1", "config": [], "q": "q3", "fn": "evalDistribution"}
+        out.append({"kind": "threads", "family": "instance_handed_between_threads", "shared": {"X1": "sphere"},
+                    "threads": [{"name": "T0", "calls": [dict(ev), dict(ev, config=[["set", "radius", 35.0]]), dict(ev),
+                                                         dict(ev, config=[["set", "radius.width", 0.2], ["set", "radius.npts", 5]])]},
+                                {"name": "T1", "calls": [dict(ev), dict(ev), dict(ev, config=[["set", "scale", 0.5]]), dict(ev)]}],
+                    "policy": {"kind": "uniform"} if seed % 2 else {"kind": "sticky", "p": 0.6},
+                    "sched_seed": 200 + seed})
     for seed in range(3 if tier == "quick" else 10):
         call = {"model": "cylinder", "config": [], "q": "q3", "fn": "evalDistribution"}
         more = {"model": "cylinder", "how": "more", "config": [["set", "radius.width", 0.15], ["set", "radius.npts", 7]],
@@ -241,4 +293,5 @@ def sample_of(cfg, res):
     return {"kind": "threads", "threads": [[t["name"], [(c.get("how", "new"), c["model"], c["config"], c["q"], c["fn"])
                                                         for c in t["calls"]]]
                                            for t in cfg["threads"]],
-            "policy": cfg["policy"]["kind"], "steps": res.get("steps"), "violations": len(res["violations"])}
+            "shared": cfg.get("shared"), "policy": cfg["policy"]["kind"], "steps": res.get("steps"),
+            "violations": len(res["violations"])}
